@@ -154,6 +154,9 @@ func (w *World) nstate(node int) *nodeState {
 func (w *World) checkSnap(cur *Snap) {
 	st := w.nstate(cur.Node)
 	prev := st.prev
+	if prev != nil && cur.At < prev.At {
+		return // an older snapshot judged late (two tasks observe the same node): the newer one has been judged already
+	}
 	w.shapes[cur.shape()] = true
 	if !cur.Loaded {
 		st.prev = cur
